@@ -22,9 +22,16 @@ def work(chunk):
         for spec, opts in chunk:
             key = hash(repr(spec) + repr(opts))
             kw = runner.sim_kwargs(opts)
+            backward = bool(opts.get("backward"))
+            if backward:
+                kw["reverse_log_information"] = False  # (a run that is going to be continued keeps its logs in simulation order)
+
+            def go(project, **k):
+                return project.backward_simulate(**k) if backward else project.simulate(**k)
+
             full = runner.prepare(spec, opts)
             try:
-                full.project.simulate(**kw)
+                go(full.project, **kw)
             except Exception as e:
                 col.aborted["%s in uninterrupted run" % type(e).__name__] += 1
                 continue
@@ -37,14 +44,14 @@ def work(chunk):
                 for mode in (("memory", "json") if via_json else ("memory",)):
                     m = runner.prepare(spec, opts)
                     try:
-                        m.project.simulate(**dict(kw, max_time=k))
+                        go(m.project, **dict(kw, max_time=k))
                         if mode == "json":
                             path = os.path.join(tmpdir, "p%d.json" % os.getpid())
                             m.project.write_simple_json(path)
                             p2 = BaseProject()
                             p2.read_simple_json(path)
                             m = S.adopt(p2)
-                        m.project.simulate(**dict(kw, initialize_state_info=False, initialize_log_info=False))
+                        go(m.project, **dict(kw, initialize_state_info=False, initialize_log_info=False))
                     except Exception as e:
                         col.violation({"property": "C15", "sig": "C15:resume-raised:%s:%s" % (mode, type(e).__name__), "kind": "pause", "spec": spec, "opts": opts, "k": k, "mode": mode, "detail": repr(e)})
                         continue
@@ -95,6 +102,23 @@ def items(tier):
     for sp, o in F.scale_items():
         if not o.get("res_absence") and o["absence"] in ([], F.SCALE_ABSENCE[1]) and (tier == "thorough" or sp["label"] in ("scale:long-unsorted-calendars", "scale:8components", "scale:layers3x4", "scale:queue-of-nine")):
             out.append((sp, o))
+    # unlimited workplaces holding several components; conveyor layouts whose workplaces are listed successors-first; the same for backward runs
+    for sp0 in F.fac_specs("quick"):
+        if sp0["label"] in ("fac:2:per-task:one-cap2:plain:both", "fac:2:per-task:one-cap2:two:both"):
+            out.append((dict(sp0, workplaces=[dict(wp, cap="inf") for wp in sp0["workplaces"]]), {"rule": "TSLACK", "max_time": F.seq_bound(sp0) + 8}))
+    names = ["T0", "T1", "T2", "T3"]
+    full4 = {nm: 1.0 for nm in names}
+    lanes = {"tasks": [{"name": "T0", "work": 1.0, "nf": True}, {"name": "T1", "work": 2.0, "nf": True}, {"name": "T2", "work": 2.0, "nf": True}, {"name": "T3", "work": 1.0, "nf": True}],
+             "links": [[0, 1, "FS"], [2, 3, "FS"]], "components": [{"name": "C0", "tasks": [0, 1]}, {"name": "C1", "tasks": [2, 3]}],
+             "workplaces": [{"name": "B1", "cap": 1.0, "targets": [1, 3], "inputs": [2], "facilities": [{"name": "FB1", "skills": dict(full4)}]},
+                            {"name": "B2", "cap": 1.0, "targets": [1, 3], "inputs": [3], "facilities": [{"name": "FB2", "skills": dict(full4)}]},
+                            {"name": "A1", "cap": 1.0, "targets": [0, 2], "facilities": [{"name": "FA1", "skills": dict(full4)}]},
+                            {"name": "A2", "cap": 1.0, "targets": [0, 2], "facilities": [{"name": "FA2", "skills": dict(full4)}]}],
+             "teams": [{"name": "TM0", "targets": [0, 1, 2, 3], "workers": [{"name": "W%d" % i, "skills": dict(full4), "fskills": {"FA1": 1.0, "FA2": 1.0, "FB1": 1.0, "FB2": 1.0}} for i in range(2)]}]}
+    out.append((lanes, {"rule": "TSLACK", "max_time": 20}))
+    for sp, o in [(lanes, {"rule": "TSLACK", "max_time": 20})] + [it for it in out if it[0].get("workplaces")][:: (15 if tier == "quick" else 4)] + [it for it in out if not it[0].get("workplaces")][:: (40 if tier == "quick" else 9)]:
+        if not o.get("absence") and not o.get("res_absence"):
+            out.append((sp, dict(o, backward=True)))
     # a step width other than 1 (pause steps on and off the time grid)
     for sp, o in list(out)[:: (23 if tier == "quick" else 7)]:
         for u in (2, 3):
@@ -112,7 +136,7 @@ def run(tier, seed):
     meta = {
         "level": "fault_enumeration",
         "rule": "crash-point enumeration: for every model of a mixed family (3-task workflows over the four dependency kinds x {POOL2,DED} x rules, with project/worker absences, automatic and half-done tasks, "
-        "the FAC facility family, order-sensitive float skill sums, same-named workplaces, shared worker/facility IDs, unit_time 2 and 3) EVERY pause step k in 0..makespan+1 is taken (simulate(max_time=k)) and the run is continued with state and log initialisation off, in memory and - for models whose "
+        "the FAC facility family, unlimited workplaces, conveyor lanes listed successors-first, backward runs (paused and continued with the logs left in simulation order), order-sensitive float skill sums, same-named workplaces, shared worker/facility IDs, unit_time 2 and 3) EVERY pause step k in 0..makespan+1 is taken (simulate(max_time=k)) and the run is continued with state and log initialisation off, in memory and - for models whose "
         "settings are part of the saved format - through write_simple_json/read_simple_json into a new project; the complete dump (all logs, costs, time, status, live state) must equal the uninterrupted run; "
         "non-trivial = distinct (model, mid-run pause step, mode)",
         "bounds": {"models": len(its), "pause_steps": "all of 0..makespan+1"},
